@@ -14,7 +14,7 @@ import traceback
 
 from . import speclang
 
-GHOST_NAMES = {"org", "prov", "upd", "Perm", "Follow", "fresh", "same_object_ghost", "ufn", "apply", "SUM", "unit", "chunk_off", "nyielded", "consumed", "nitems", "item", "mapped", "defined_len"}
+GHOST_NAMES = {"org", "prov", "upd", "Perm", "Follow", "fresh", "same_object_ghost", "ufn", "apply", "SUM", "unit", "chunk_off", "nyielded", "consumed", "nitems", "item", "mapped", "defined_len", "same_object", "field", "fresh", "shares_buffer"}
 
 
 class Skip(Exception):
@@ -248,6 +248,16 @@ def run_case(c, fn, case, glob):
     return "ok", None
 
 
+def safe_repr(x):
+    try:
+        return repr(x)[:300]
+    except Exception:
+        try:
+            return repr([describe(v) for v in x[0]])[:300]
+        except Exception:
+            return "<unprintable case>"
+
+
 def run_contract(name, tier, seed, limit_s, extra_cases=None):
     c = speclang.CONTRACTS[name]
     glob = spec_globals()
@@ -282,7 +292,7 @@ def run_contract(name, tier, seed, limit_s, extra_cases=None):
                 break
             if status == "ok":
                 out["ok"] += 1
-                key = case.get("key") or repr((case.get("args"), case.get("kwargs")))[:300]
+                key = case.get("key") or safe_repr((case.get("args"), case.get("kwargs")))
                 if key not in seen:
                     seen.add(key)
                     if len(out["samples"]) < 3:
@@ -290,7 +300,7 @@ def run_contract(name, tier, seed, limit_s, extra_cases=None):
             elif status == "skipped":
                 out["skipped"] += 1
             else:
-                detail["case_key"] = case.get("key") or repr((case.get("args"), case.get("kwargs")))[:300]
+                detail["case_key"] = case.get("key") or safe_repr((case.get("args"), case.get("kwargs")))
                 detail["signature"] = case.get("sig")
                 if len(out["violations"]) < 20:
                     out["violations"].append(detail)
